@@ -78,16 +78,16 @@ def check(ctx):
         extra = base if ('--isolate' in args) else common
         ctx.run_engine(exe, ['--name', name] + args + extra + ['--deadline', str(deadline)], label=name, timeout=deadline + 400)
     if q:
-        leg('inproc-1t', ['--leg', 'inproc', '--threads', '1', '--nt', '1:3', '--maxp', '2', '--nest', '1', '--jobs', '8'], 60)
-        leg('scheds-1t', ['--leg', 'scheds', '--threads', '1', '--exclude', 'll,llp,ip', '--nt', '1:3', '--maxp', '2', '--nest', '1', '--stride', '36'], 60)
-        leg('gate-le2', ['--leg', 'gate', '--nt', '1:2', '--maxp', '2', '--win', '1,1;2,1;0,0', '--jobs', '8'], 60)
-        leg('gate-3x1', ['--leg', 'gate', '--nt', '3:3', '--maxp', '1', '--win', '0,0', '--stride', '18', '--jobs', '8'], 60)
+        leg('inproc-1t', ['--leg', 'inproc', '--threads', '1', '--nt', '1:3', '--maxp', '2', '--nest', '1', '--jobs', '8'], 150)
+        leg('scheds-1t', ['--leg', 'scheds', '--threads', '1', '--exclude', 'll,llp,ip', '--nt', '1:3', '--maxp', '2', '--nest', '1', '--stride', '36'], 150)
+        leg('gate-le2', ['--leg', 'gate', '--nt', '1:2', '--maxp', '2', '--win', '1,1;2,1;0,0', '--jobs', '8'], 150)
+        leg('gate-3x1', ['--leg', 'gate', '--nt', '3:3', '--maxp', '1', '--win', '0,0', '--stride', '18', '--jobs', '8'], 150)
         # 2 free-running streams behind the real scheduler module; insertion serialised against task completion (see level_note)
-        leg('mt-2t', ['--leg', 'mt', '--threads', '2', '--nt', '1:3', '--maxp', '2', '--win', '0,0', '--api', '3', '--spin', '500', '--stride', '12', '--jobs', '6'], 60)
+        leg('mt-2t', ['--leg', 'mt', '--threads', '2', '--nt', '1:3', '--maxp', '2', '--win', '0,0', '--api', '3', '--spin', '500', '--stride', '12', '--jobs', '6'], 150)
         # the real configuration (task objects recycled): every case in a forked child, failures attributed by differential re-run
-        leg('recycle-on', ['--leg', 'gate', '--nt', '1:2', '--maxp', '2', '--win', '1,1;0,0', '--stride', '5', '--jobs', '8', '--isolate', '1', '--norecycle', '0', '--dup', '0'], 80)
+        leg('recycle-on', ['--leg', 'gate', '--nt', '1:2', '--maxp', '2', '--win', '1,1;0,0', '--stride', '5', '--jobs', '8', '--isolate', '1', '--norecycle', '0', '--dup', '0'], 150)
         # tasks naming one tile twice (R,R / R,RW / RW,R)
-        leg('dup', ['--leg', 'gate', '--nt', '1:1', '--maxp', '2', '--win', '0,0;1,1', '--jobs', '3', '--isolate', '1', '--norecycle', '1', '--dup', '2'], 60)
+        leg('dup', ['--leg', 'gate', '--nt', '1:1', '--maxp', '2', '--win', '0,0;1,1', '--jobs', '3', '--isolate', '1', '--norecycle', '1', '--dup', '2'], 150)
     else:
         leg('inproc-1t', ['--leg', 'inproc', '--threads', '1', '--nt', '1:3', '--maxp', '3', '--alpha', 't', '--nest', '1', '--jobs', '12'], 300)
         leg('scheds-1t', ['--leg', 'scheds', '--threads', '1', '--exclude', 'll,llp,ip', '--nt', '1:3', '--maxp', '2', '--nest', '1', '--stride', '1'], 300)
